@@ -670,6 +670,7 @@ LkStep(m0, e) ==
             THEN ViolKeep([m EXCEPT !.owners = @ \cup {e.c}], "C13", "second_owner_admitted", e,
                           [c |-> e.c, kind |-> e.kind, proc |-> e.proc, owners |-> m.owners])
             ELSE [m EXCEPT !.owners = {e.c}]
+  ELSE IF "race" \in DOMAIN e THEN m    \* a losing attempt of a real race is logged late: nothing can be concluded from it
   ELSE IF m.owners = {} THEN ViolKeep(m, "C13", "free_directory_refused", e, [c |-> e.c, kind |-> e.kind, proc |-> e.proc, res |-> e.res])
   ELSE IF ~e.same THEN ViolKeep(m, "C13", "refused_contender_modified_files", e, [c |-> e.c, kind |-> e.kind, proc |-> e.proc])
   ELSE m
